@@ -344,6 +344,9 @@ func TestC17(t *testing.T) {
 	run := vk.New("C17", "chains")
 	defer run.Finish()
 	n := run.Scale(250, 8000)
+	if run.Shard == 0 {
+		registerDuringSubscribe(run)
+	}
 	for c := 0; c < n; c++ {
 		r := run.Rand(uint64(c))
 		nNames := 3 + r.IntN(6)
@@ -486,6 +489,37 @@ func TestC17(t *testing.T) {
 		if c < 2 && run.Shard == 0 {
 			run.Sample(witness)
 		}
+	}
+}
+
+// registerDuringSubscribe: the registry is empty when SubscribeWithReplay is called; the handler
+// registers the chain when it sees the first (native) event; the older events that follow in the
+// log must then be upcast and delivered.
+func registerDuringSubscribe(run *vk.Run) {
+	store := ebu.NewMemoryStore()
+	bus := ebu.New(ebu.WithStore(store), ebu.WithSubscriptionStore(ebu.NewMemoryStore()))
+	ctx := context.Background()
+	put := func(typ string, v any) {
+		b, _ := json.Marshal(v)
+		store.Append(ctx, &ebu.Event{Type: typ, Data: b, Timestamp: time.Unix(1, 0)})
+	}
+	put(nV3, V3{ID: 1})
+	put(nV1, V1{ID: 2})
+	put(nV2, V2{ID: 3})
+	put(nV1, V1{ID: 4})
+	var got []int
+	registered := false
+	err := ebu.SubscribeWithReplay(ctx, bus, "late-registration", func(v V3) {
+		got = append(got, v.ID)
+		if !registered {
+			registered = true
+			ebu.RegisterUpcast(bus, func(v V1) V2 { return V2{ID: v.ID, Trace: append(v.Trace, "t12")} })
+			ebu.RegisterUpcast(bus, func(v V2) V3 { return V3{ID: v.ID, Trace: append(v.Trace, "t23")} })
+		}
+	})
+	run.Case("register-during-subscribe", true)
+	if err != nil || fmt.Sprint(got) != "[1 2 3 4]" {
+		run.Violation("upcast:registered-during-subscribe", fmt.Sprintf("upcasters registered by the handler while SubscribeWithReplay was replaying (registry empty at the call): delivered %v, err %v; the later V1/V2 events must arrive upcast: [1 2 3 4]", got, err), nil)
 	}
 }
 
